@@ -38,7 +38,7 @@ def stretch(case, z):
     vals = []
     for k in range(m):
         lab = s0 + k
-        if lab <= int(z.index[-1]) and case["reuse_train_values"]:
+        if int(z.index[0]) <= lab <= int(z.index[-1]) and case["reuse_train_values"]:
             vals.append(float(z.loc[lab]))
         else:
             vals.append(base[k] + 5.0)
@@ -150,6 +150,8 @@ def oracle_phase(case, ctx):
     ctx.mark_nontrivial(case["off"] % sp != 0 or bool(case["updates"]))
     if case["off"] % sp != 0:
         ctx.label("off_phase")
+    if case["off"] < 0:
+        ctx.label("stretch_starts_before_training")
     if case["m"] % sp != 0:
         ctx.label("length_not_multiple_of_sp")
     r = sut(fit, t, z, spec)
@@ -267,7 +269,8 @@ def base_case(draw, spec_strategy):
     return {
         "spec": spec, "values": draw(gen.series_values(n, n, lo=5.0, hi=200.0)),
         "start": draw(gen.index_start), "index_kind": draw(gen.index_kind),
-        "off": draw(st.integers(0, n + 20)), "m": draw(st.integers(2, 20)),
+        # the stretch may also start before the training series (overlapping it or not)
+        "off": draw(st.one_of(st.integers(0, n + 20), st.integers(0, n + 20), st.integers(-14, -1))), "m": draw(st.integers(2, 20)),
         "reuse_train_values": draw(st.booleans()),
         "updates": draw(st.lists(st.integers(1, 7), max_size=2)),
     }
